@@ -524,3 +524,49 @@ func allPathsFail(start *ssa.BasicBlock) bool {
 	}
 	return n > 0
 }
+
+// cellValueOnPath: v is a load of a local variable's cell; the value the cell holds at that load on path p (the last store
+// to the cell executed before it). Loads of loads are followed. Otherwise v.
+func cellValueOnPath(p *Path, v ssa.Value) ssa.Value {
+	for depth := 0; depth < 6; depth++ {
+		v = resolveOnPath(p, v)
+		ld, ok := v.(*ssa.UnOp)
+		if !ok || ld.Op != token.MUL {
+			return v
+		}
+		cell, ok := ld.X.(*ssa.Alloc)
+		if !ok {
+			return v
+		}
+		var last ssa.Value
+		found := false
+		for _, in := range p.Instrs() {
+			if in == ssa.Instruction(ld) {
+				found = true
+				break
+			}
+			if st, isSt := in.(*ssa.Store); isSt && st.Addr == ssa.Value(cell) {
+				last = st.Val
+			}
+		}
+		if !found {
+			// the load is in the stop block, which is not executed on the path: scan that block up to the load
+			if len(p.Blocks) > 0 {
+				for _, in := range p.Blocks[len(p.Blocks)-1].Instrs {
+					if in == ssa.Instruction(ld) {
+						found = true
+						break
+					}
+					if st, isSt := in.(*ssa.Store); isSt && st.Addr == ssa.Value(cell) {
+						last = st.Val
+					}
+				}
+			}
+		}
+		if !found || last == nil {
+			return v
+		}
+		v = last
+	}
+	return v
+}
